@@ -16,6 +16,7 @@ CLASSES = {
 }
 
 PREDICATES = {
+  'sz_ok': (['x'], 'x >= 0'),
   # what the transport reports upward
   'reports_open': (['s'], 's._socket.connected or s._state == ChannelState.Open'),
 }
@@ -62,13 +63,18 @@ FUNCTIONS = {
       'self._processing is None',
       # a transport that still reports itself open is actually connected
       'implies(self._state != ChannelState.Closed or self._socket.connected, self._socket.connected)',
+      # C14: the reply is delivered unless the connection itself failed (error / end of stream / timeout raised by a
+      # socket call) or the deadline had passed -- in particular however the reply bytes are split across reads
+      'implies(not self._socket.g_ioerr and not g_expired and sz_ok(g_sz), g_spawned == 1 and g_posts == 0)',
     ],
-    modifies=['SocketTransportSink._state', 'Socket.connected', 'Socket.g_epoch', 'SocketTransportSink._open_result', 'SocketTransportSink._processing',
+    modifies=['Socket.g_ioerr', 'SocketTransportSink._state', 'Socket.connected', 'Socket.g_epoch', 'SocketTransportSink._open_result', 'SocketTransportSink._processing',
               'Observable.value', 'deque[tuple[AnySink,any]]', 'AnySink.g_invoked', 'MethodReturnMessage.error',
               'MethodReturnMessage.return_value', 'MethodReturnMessage.stack', 'Socket.g_written', '$cls'],
     allocates=True,
     ghost=[
-      {'before': 'gtimeout = None', 'do': ['g_posts = 0', 'g_spawned = 0', 'g_now = 0.0', 'g_w0 = self._socket.g_written']},
+      {'before': 'gtimeout = None', 'do': ['g_posts = 0', 'g_spawned = 0', 'g_now = 0.0', 'g_w0 = self._socket.g_written', 'self._socket.g_ioerr = False', 'g_expired = False', 'g_sz = 0']},
+      {'before': 'raise gevent.Timeout()', 'do': ['g_expired = True']},
+      {'after': "(sz,) = unpack('!i', self._socket.readAll(4))", 'do': ['g_sz = sz']},
       # C12: once the deadline has been reached the caller may already hold TimeoutError: nothing is written
       {'before': 'self._socket.write(data)', 'do': [
         'prove(implies(not is_none(deadline) and truthy(deadline), g_now < deadline), "nothing-written-at-or-after-the-deadline")']},
@@ -125,11 +131,14 @@ EXTERNS = {
                        ensures=['not self.connected', 'self.g_epoch == old(self.g_epoch) + 1'],
                        notes='closes the connection: nothing sent on the old connection can be read afterwards (epoch)'),
   'Socket.isOpen': dict(params=[], returns='bool', ensures=['result == self.connected']),
-  'TimedSocket.write': dict(params=[('data', 'bytes')], may_raise=['Exception', 'Timeout'], modifies=['Socket.g_written'],
-                       ensures=['self.g_written == old(self.g_written) + 1', 'self.connected'], raise_ensures=['self.g_written >= old(self.g_written)'],
+  'TimedSocket.write': dict(params=[('data', 'bytes')], may_raise=['Exception', 'Timeout'], modifies=['Socket.g_written', 'Socket.g_ioerr'],
+                       ensures=['self.g_written == old(self.g_written) + 1', 'self.connected', 'self.g_ioerr == old(self.g_ioerr)'], raise_ensures=['self.g_written >= old(self.g_written)', 'self.g_ioerr'],
                        notes='sendall on the connection; cannot succeed on a closed handle'),
-  'TimedSocket.readAll': dict(params=[('sz', 'int')], returns='bytes', may_raise=['Exception', 'EOFError', 'Timeout'],
-                         ensures=['blen(result) == sz', 'self.connected']),
+  'TimedSocket.read': dict(params=[('sz', 'int')], returns='bytes', may_raise=['Exception', 'EOFError', 'Timeout'], modifies=['Socket.g_ioerr'],
+                      ensures=['0 <= blen(result) and blen(result) <= sz', 'self.connected', 'self.g_ioerr == old(self.g_ioerr)'], raise_ensures=['self.g_ioerr'],
+                      notes='one recv: whatever has arrived, at most sz bytes -- possibly fewer than asked for'),
+  'TimedSocket.readAll': dict(params=[('sz', 'int')], returns='bytes', may_raise=['Exception', 'EOFError', 'Timeout'], modifies=['Socket.g_ioerr'],
+                         ensures=['blen(result) == sz', 'self.connected', 'self.g_ioerr == old(self.g_ioerr)'], raise_ensures=['self.g_ioerr']),
   'gevent.Timeout.start_new': dict(params=[('timeout', 'real')], returns='TimeoutObj', fresh=True, allocates=True),
   'gevent.Timeout': dict(params=[], returns='Timeout', fresh=True, allocates=True),
   'gevent.spawn_greenlet': dict(params=[], returns='Greenlet'),
